@@ -35,6 +35,10 @@ class SymApi(BaseApi):
     def bool(self, name):
         return P.sym_bool(name)
 
+    def choice(self, name, n):
+        k = P.sym_int(name, 0, n - 1)
+        return self.ctx.choose(k.z, n)
+
     def enum(self, name, kind, domain=None):
         return P.sym_enum(name, kind, domain if domain is not None else KIND_LABELS[kind])
 
